@@ -1,4 +1,5 @@
 import HypatiaProofs.Lemmas.ConcurrencyFieldMerge
+import HypatiaProofs.Lemmas.ConcurrencyKeywordOps
 import HypatiaProofs.Lemmas.FieldQuery
 import HypatiaProofs.Lemmas.FieldObs
 
@@ -125,5 +126,136 @@ theorem c19_field_merged_observes_serial (o : OrdLaws V) (H : FHeap V) (t : Tabl
   · intro q d
     unfold applyNotEq applyEq
     rw [mem_negate iM, mem_negate iS]; exact mem_neg_congr _ _ _ (ha [q]) d
+
+
+/-! ## non-vacuity for the field index: a merge that succeeds on a shared posting, one that must fail -/
+
+/-- base: documents 1, 2, 3 hold value 7; `a` adds document 5 with value 7 and moves 1 to value 9;
+`b` removes 2 and adds 4 with value 7: every object merges, and the merged posting of 7 is {3,4,5} -/
+example :
+    let H : FHeap Int := ((FTx.start {} 0).run [.index 1 (some 7), .index 2 (some 7), .index 3 (some 7)]).heap
+    let a := (FTx.start H 1).run [.index 5 (some 7), .index 1 (some 9)]
+    let b := (FTx.start H 2).run [.unindex 2, .index 4 (some 7)]
+    ∃ M, commitSecond H a b = some M ∧ (3 ∈ M.posting 7 ∧ 4 ∈ M.posting 7 ∧ 5 ∈ M.posting 7) ∧
+      (M.posting 7).length = 3 ∧ M.posting 9 = [1] ∧ M.len = 4 := by
+  refine ⟨_, rfl, ?_⟩
+  decide
+
+/-- `b` empties the posting of value 7 (and deletes the key) while `a` inserts into it: refused -/
+example :
+    let H : FHeap Int := ((FTx.start {} 0).run [.index 1 (some 7), .index 2 (some 8)]).heap
+    let a := (FTx.start H 1).run [.index 5 (some 7)]
+    let b := (FTx.start H 2).run [.unindex 1]
+    commitSecond H a b = none := by
+  decide
+
+/-! ## keyword index: the threshold replacement (D20)
+
+`KeywordIndex._insert_forward` replaces a small `Set` posting by a `TreeSet` **object** when it
+reaches `tree_threshold`.  A concurrent transaction that started from the same snapshot still
+holds the old `Set`; if it changes that set without crossing the threshold (remove one member,
+add one), both transactions wrote the old set object and the per-member merge *succeeds* – into
+an object the forward tree no longer refers to.  The repaired code empties the replaced set, so
+that `Set._p_resolveConflict` refuses (committed state empty).
+-/
+
+/-- the D20 schedule: keyword 7 is held by documents 1, 2, 3 in a small `Set` -/
+def d20Base (c : KCfg) : KHeap Int :=
+  (KTx.run c (KTx.start {} 0) [.index 1 (some [7]), .index 2 (some [7]), .index 3 (some [7])]).heap
+/-- `a` indexes document 5 under keyword 7: with `tree_threshold = 4` the set is replaced -/
+def d20A (c : KCfg) : KTx Int := KTx.run c (KTx.start (d20Base c) 1) [.index 5 (some [7])]
+/-- `b` unindexes document 2 and indexes document 4 under keyword 7: no crossing -/
+def d20OpsB : List (TOp (List Int)) := [.unindex 2, .index 4 (some [7])]
+def d20B (c : KCfg) : KTx Int := KTx.run c (KTx.start (d20Base c) 2) d20OpsB
+def d20Serial (c : KCfg) : KHeap Int := (KTx.run c (KTx.start (d20A c).heap 2) d20OpsB).heap
+
+/-- **(a)** With the *unrepaired* replacement (the old set is left as it is) every object merges,
+and the stored index differs from serial execution: keyword 7 still lists document 2 (which has no
+reverse entry any more) and does not list document 4 (which has one). -/
+theorem c19_d20_unrepaired_loses_update :
+    let c : KCfg := { thr := 4, clearReplaced := false }
+    ∃ M, commitSecondK (d20Base c) (d20A c) (d20B c) = some M ∧
+      (2 ∈ M.posting 7 ∧ 4 ∉ M.posting 7 ∧ AMap.get M.rev 2 = none ∧ AMap.get M.rev 4 = some [7]) ∧
+      (2 ∉ (d20Serial c).posting 7 ∧ 4 ∈ (d20Serial c).posting 7) := by
+  refine ⟨_, rfl, ?_⟩
+  decide
+
+/-- the same schedule on the repaired code: ConflictError -/
+theorem c19_d20_repaired_conflicts :
+    let c : KCfg := { thr := 4, clearReplaced := true }
+    commitSecondK (d20Base c) (d20A c) (d20B c) = none := by
+  decide
+
+variable {K : Type} [DecidableEq K]
+
+/-- **(b)** With the repaired code, for **all** base heaps (references resolve and are not
+shared), all thresholds, all operation lists of the first committer `a` and *any* second
+transaction `b`: whenever `a` replaced (or dropped) the posting object `o` the snapshot's forward
+tree referred to under `k`, and `b` wrote `o`, the merge of `o` fails – whatever state `b` left it
+in – and with it the commit. -/
+theorem c19_replacement_conflicts (c : KCfg) (hc : c.clearReplaced = true) (H : KHeap K) (hw : KWf H)
+    (ia : Nat) (hoa : ∀ o, (AMap.get H.post o).isSome → o.1 ≠ ia) (opsA : List (TOp (List K)))
+    (k : K) (o : Oid) (s0 : Keyword.Tag × List Int) (h0 : AMap.get H.fwd k = some o) (hs0 : AMap.get H.post o = some s0)
+    (hrep : AMap.get (KTx.run c (KTx.start H ia) opsA).heap.fwd k ≠ some o)
+    (b : KTx K) (hb : dirty b.writes (.post o) = true) :
+    let a := KTx.run c (KTx.start H ia) opsA
+    (∀ sb, mergeObj resolvePosting (dirty a.writes (.post o)) (dirty b.writes (.post o)) s0
+        ((AMap.get a.heap.post o).getD s0) sb = none) ∧
+    (∀ sb, AMap.get b.heap.post o = some sb → commitSecondK H a b = none) := by
+  intro a
+  obtain ⟨⟨t, he⟩, hd⟩ := run_repl hw c hc ia hoa opsA h0 hrep
+  have hm : ∀ sb, mergeObj resolvePosting (dirty a.writes (.post o)) (dirty b.writes (.post o)) s0
+      ((AMap.get a.heap.post o).getD s0) sb = none := by
+    intro sb
+    show mergeObj resolvePosting (dirty (KTx.run c (KTx.start H ia) opsA).writes (.post o)) _ s0
+      ((AMap.get (KTx.run c (KTx.start H ia) opsA).heap.post o).getD s0) sb = none
+    rw [hd, hb, he]
+    simp [mergeObj, resolvePosting_com_empty]
+  exact ⟨hm, fun sb hsb => commitSecondK_none_of_post hs0 hsb (hm sb)⟩
+
+/-- the hypotheses of (b) are met by the D20 schedule -/
+example :
+    let c : KCfg := { thr := 4, clearReplaced := true }
+    AMap.get (d20Base c).fwd 7 = some (0, 0) ∧ AMap.get (d20A c).heap.fwd 7 ≠ some (0, 0) ∧
+    dirty (d20B c).writes (.post (0, 0)) = true := by
+  decide
+
+/- **Full statement for the keyword index** (not proved; what is missing is the keyword analogue of
+`Lemmas/ConcurrencyFieldSim/Frame/Merge`: the simulation of the object-level `index_doc` – several
+postings per call, the `kw_added` / `kw_removed` difference path – by the C02 model and the
+footprint of a transaction; the merge argument itself is the one of the field index, per keyword):
+
+  theorem c19_keyword_conflict_or_serial (c : KCfg) (hc : c.clearReplaced = true)
+      (H : KHeap K) (t : Keyword.Spec.Table K) (hI : Keyword.Inv (Keyword.erase (H.view c.thr)) t ∧ KWf H)
+      (ia ib : Nat) (hab : ia ≠ ib) (hoa : …owner ≠ ia) (hob : …owner ≠ ib)
+      (opsA opsB : List (TOp (List K))) (hdis : ∀ d, d ∈ docsOf opsA → d ∉ docsOf opsB) (M : KHeap K)
+      (hM : commitSecondK H (KTx.run c (KTx.start H ia) opsA) (KTx.run c (KTx.start H ib) opsB) = some M) :
+      Keyword.Inv (Keyword.erase (M.view c.thr)) (tableAfterK t (opsA ++ opsB)) ∧ KWf M
+
+Proved instead: a successful commit never merges two transactions' changes into a posting object
+that one of them has replaced or dropped – the way D20 lost updates – for all bases, thresholds
+and operation lists. -/
+theorem c19_keyword_conflict_or_serial_partial (c : KCfg) (hc : c.clearReplaced = true)
+    (H : KHeap K) (hw : KWf H) (ia ib : Nat)
+    (hoa : ∀ o, (AMap.get H.post o).isSome → o.1 ≠ ia) (hob : ∀ o, (AMap.get H.post o).isSome → o.1 ≠ ib)
+    (opsA opsB : List (TOp (List K))) (M : KHeap K)
+    (hM : commitSecondK H (KTx.run c (KTx.start H ia) opsA) (KTx.run c (KTx.start H ib) opsB) = some M)
+    (k : K) (o : Oid) (h0 : AMap.get H.fwd k = some o)
+    (hda : dirty (KTx.run c (KTx.start H ia) opsA).writes (.post o) = true)
+    (hdb : dirty (KTx.run c (KTx.start H ib) opsB).writes (.post o) = true) :
+    AMap.get (KTx.run c (KTx.start H ia) opsA).heap.fwd k = some o ∧
+    AMap.get (KTx.run c (KTx.start H ib) opsB).heap.fwd k = some o := by
+  obtain ⟨s0, hs0⟩ := Option.isSome_iff_exists.mp (hw.refs k o h0)
+  have kb := ks_run c hc opsB _ (ks_start hw ib hob)
+  obtain ⟨sb, hsb⟩ := Option.isSome_iff_exists.mp (kb.base_keep o (hw.refs k o h0))
+  constructor
+  · refine Classical.byContradiction fun hrep => ?_
+    have := (c19_replacement_conflicts c hc H hw ia hoa opsA k o s0 h0 hs0 hrep _ hdb).2 sb hsb
+    rw [this] at hM; cases hM
+  · refine Classical.byContradiction fun hrep => ?_
+    obtain ⟨⟨t, he⟩, _⟩ := run_repl hw c hc ib hob opsB h0 hrep
+    have : commitSecondK H (KTx.run c (KTx.start H ia) opsA) (KTx.run c (KTx.start H ib) opsB) = none :=
+      commitSecondK_none_of_post hs0 he (by rw [hda, hdb]; simp [mergeObj, resolvePosting_new_empty])
+    rw [this] at hM; cases hM
 
 end Hyp.CIdx
